@@ -26,10 +26,18 @@ for fun in nograd_functions:
 defjvp(func(ArrayBox.__getitem__), "same")
 defjvp(untake, "same")
 
-defjvp_argnum(
-    anp.array_from_args,
-    lambda argnum, g, ans, args, kwargs: untake(g, array_from_args_index(argnum, ans, args), vspace(ans)),
-)
+
+
+def array_from_args_jvp(argnum, g, ans, args, kwargs):
+    array_args, array_kwargs = args[0], args[1]
+    dtype = array_kwargs.get("dtype", array_args[0] if array_args else None)
+    if dtype is not None and not onp.issubdtype(onp.dtype(dtype), onp.inexact):
+        # a conversion to an integer or boolean type is piecewise constant
+        return vspace(ans).zeros()
+    return untake(g, array_from_args_index(argnum, ans, args), vspace(ans))
+
+
+defjvp_argnum(anp.array_from_args, array_from_args_jvp)
 
 
 def array_from_scalar_or_array_jvp(g, ans, args, kwargs, _):
